@@ -59,11 +59,17 @@ let ref_sexp = function None -> A "none" | Some v -> sexp_of_pyval v
 let psegs_sexp (txt : char list) : t =
   outcome_sexp (fun l -> L (List.map seg_sexp l)) (parse Auto true txt)
 
-(* A scalar node whose value is its own parentref is printed by value: the result of name() is the key or
+(* In a query whose path contains a name() segment, a scalar node whose value is its own parentref is printed
+   by value: the result of name() is the key or
    index object itself (a dict key, an int made by enumerate(), the str of the path segment), whose CPython
    identity is an accident (interned small ints and 1-char strings may or may not coincide with scalars of
    the document).  harness/evalcommon.py item_sexp applies the same rule. *)
+let name_mode = ref false     (* the path of the current request contains "name(" *)
+let contains_sub (s : string) (sub : string) : bool =
+  let n = String.length s and m = String.length sub in
+  let rec go i = i + m <= n && (String.sub s i m = sub || go (i + 1)) in go 0
 let name_like (nd : rval) (rf : pyval option) : bool =
+  !name_mode &&
   match nd with
   | RNode (NLeaf (_, v)) ->
     (match rf with None -> v = PNone | Some r -> to_string (sexp_of_pyval r) = to_string (sexp_of_pyval v))
@@ -113,6 +119,7 @@ let handle (cmd : string) (args : t list) : t option =
     let d = node_of_sexp doc in
     let txt = str_atom path in
     let kw_handler = ek_kw_handler lit re nstr vstr in
+    name_mode := contains_sub (implode txt) "name(";
     (match prepare (nat_of_int (List.length txt + 2)) txt with
      | OutOfFuel -> Some (L [A "outoffuel"; A "prepare"])
      | Raise e -> Some (L [A "raise"; exn_sexp e])
@@ -122,4 +129,17 @@ let handle (cmd : string) (args : t list) : t option =
         | "opt" -> Some (gen_sexp (get_optional lit re nstr vstr kw_handler creator p d))
         | "exists" -> Some (gen_sexp_with (function [b] -> bs b | _ -> A "?") (exists_ lit re nstr vstr kw_handler creator p d))
         | _ -> failwith ("bad mode " ^ mode)))
+  (* model-only: which fragment of Spec/SpecC15kw.v the path is in on this document *)
+  | "frag", [path; doc; lt; rt; nt] ->
+    let lit = lit_of_table (lit_table_of_sexp lt) in
+    let re = re_of_table (re_table_of_sexp rt) in
+    let nstr = nstr_of_table nt in
+    let d = node_of_sexp doc in
+    let txt = str_atom path in
+    (match prepare (nat_of_int (List.length txt + 2)) txt with
+     | Ok p ->
+       if in_fragment_kw p then Some (L [A "frag"; A "kw"])
+       else if kc_fragment lit re nstr vstr p d then Some (L [A "frag"; A "guard"])
+       else Some (L [A "frag"; A "out"])
+     | _ -> Some (L [A "frag"; A "unprepared"]))
   | _ -> None
